@@ -223,6 +223,7 @@ type ssCase struct {
 	nRetx       int
 	nSplit      int
 	panicKey    string // scripted cases: key under which an expected panic is reported
+	keyOverride string // scripted cases: stable key for the data monitors
 	infoOnly    bool   // scripted misuse scenarios: report as INFO, never as MONFAIL
 	closedFirst bool   // Close was called before the reset (valid order)
 }
@@ -230,6 +231,9 @@ type ssCase struct {
 func (c *ssCase) fail(key, desc string) {
 	if key == "sendstream/panic" && c.panicKey != "" {
 		key = c.panicKey
+	}
+	if c.keyOverride != "" && (key == "sendstream/data" || key == "sendstream/after-reset" || key == "sendstream/contig") {
+		key = c.keyOverride
 	}
 	if c.failed[key] {
 		return
@@ -738,7 +742,7 @@ func (c *ssCase) run(drain bool, flavour int) {
 				c.opPop(c.budget())
 			}
 		case x < 99+cancelBias:
-			if !sn.Reset && r.Chance(1, 2) {
+			if (!sn.Reset || r.Chance(1, 3)) && r.Chance(1, 2) {
 				c.opEnable()
 			} else {
 				c.opPop(c.budget())
@@ -916,8 +920,9 @@ type ssScript struct {
 }
 
 const (
-	ssKeyFinTrunc = "sendstream/fin-truncated-reliable-reset"
-	ssKeyRelPanic = "sendstream/panic/reliable-boundary-after-cancel"
+	ssKeyFinTrunc   = "sendstream/fin-truncated-reliable-reset"
+	ssKeyRelPanic   = "sendstream/panic/reliable-boundary-after-cancel"
+	ssKeyLateEnable = "sendstream/late-enable-reset-stream-at"
 )
 
 type ssPF = struct {
@@ -988,7 +993,7 @@ var ssScripts = []ssScript{
 		c.opAcked(0)
 	}},
 	{sid: 0, rsa: false, swin: 1 << 20, cwin: 1 << 20, f: func(c *ssCase) {
-		c.infoOnly = true
+		c.keyOverride = ssKeyLateEnable
 		c.opWrite(100)
 		c.opRel()
 		c.opWrite(1400)
